@@ -470,9 +470,14 @@ fn exec_inner(op: &str, a: &Value, st: &mut State) -> Value {
         }
         "dtcmp" => {
             let mk = |v: &Value| -> Result<DateTime, Value> {
+                let ty = mk_type(getv(v, "type"))?;
+                if v.get("y").is_some() {
+                    // an operand given by its fields (second 60 possible), built with DateTime::new
+                    let f = fields(v);
+                    return DateTime::new(f.y, f.mo, f.d, f.h, f.mi, f.s, f.ns, ty).map_err(err);
+                }
                 let t = w_to_i64(getv(v, "t"));
                 let ns = geti(v, "ns") as u32;
-                let ty = mk_type(getv(v, "type"))?;
                 DateTime::from_timespec_and_local(t, ns, ty).map_err(err)
             };
             match (mk(getv(a, "a")), mk(getv(a, "b"))) {
